@@ -257,6 +257,23 @@ def meek_rules(rep, prog):
                 details.append("store %s not guarded by rule calls" % fmt(st.idx)[:60])
             continue
         rc = [x for x in walk(conds[-1]) if isinstance(x, tuple) and x[0] == "call" and x[1] in RULES]
+        # the guard is the *disjunction* of the rule calls: any single rule orients the edge
+        def disjuncts(t_):
+            if t_[0] == "bool" and t_[1] == "or":
+                return [y for x_ in t_[2] for y in disjuncts(x_)]
+            if t_[0] == "unop" and t_[1] == "truth":
+                return disjuncts(t_[2])
+            return [t_]
+        ds = disjuncts(conds[-1])
+        if not all(d_[0] == "call" and d_[1] in RULES for d_ in ds):
+            joined = [d_ for d_ in ds if not (d_[0] == "call" and d_[1] in RULES)]
+            if all(j_[0] == "bool" and j_[1] == "and" and all(x_[0] == "call" and x_[1] in RULES for x_ in j_[2]) for j_ in joined):
+                ok = False
+                details.append("the guard of %s needs several rules at once (%s): each Meek rule alone must orient the edge" % (fmt(st.idx)[:30], fmt(joined[0])[:80]))
+                continue
+            ok = False
+            unread.append("guard of store %s is not a plain disjunction of rule calls" % fmt(st.idx)[:40])
+            continue
         args = {(dict(x[3]).get("i"), dict(x[3]).get("j")) for x in rc}
         mats = {dict(x[3]).get("A") for x in rc}
         names = {x[1] for x in rc}
@@ -278,7 +295,9 @@ def meek_rules(rep, prog):
     okf = len(loops) == 1 and any(v in (("method", PP_, "copy", (), ()), ("ext", "numpy.array", (PP_,), ()), ("ext", "numpy.copy", (PP_,), ()), ("ext", "copy.deepcopy", (PP_,), ())) for v in loops[0][1]["init"].values()) and T(summ.ret)[0] == "after"
     all_loops = [v for v in S.loopinfo.values() if v["func"] == q]
     on_param = len(loops) == 1 and any(v == PP_ for v in loops[0][1]["init"].values())
-    if okf:
+    if okf and loops[0][1]["test"][0] == "mu" and is_const(loops[0][1]["init"].get(loops[0][1]["test"][2]), False):
+        rep.bad("ORIENT.fixpoint", fwhere(f, loops[0][1]["node"]), "the pass flag is False before the loop: no pass is ever made, nothing is oriented")
+    elif okf:
         rep.ok("ORIENT.fixpoint", fwhere(f), "works on P.copy() and repeats until a pass orients nothing")
     elif on_param:
         rep.bad("ORIENT.fixpoint", fwhere(f), "the orientations are written into the caller's matrix, not into a copy of P")
@@ -418,7 +437,7 @@ def meek_definitions(rep, prog):
                     return True
                 alg = SetAlg(all_atoms, max_atoms=4, feasible=feasible)
             ok, wit = alg.equal(code, lambda w: spec(alg, w))
-            rep.check("RULES." + name, ok, fwhere(f), "%s(i, j, A) <=> %s, in all %d worlds of the two sets" % (name, text, 2 ** len(alg.regions)),
+            rep.check("RULES." + name, ok, fwhere(f), "%s(i, j, A) <=> %s, in all %d worlds of the two sets" % (name, text, (3 if alg.counting else 2) ** len(alg.regions)),
                       "%s deviates from its definition (%s): %s" % (name, text, wit))
         except Inconclusive as e:
             rep.unk("RULES." + name, fwhere(f), "%s is not a set predicate over %s: %s" % (name, [fmt(a) for a in atoms_], e.why))
@@ -473,13 +492,14 @@ def quantified_rules(rep, prog):
                 out.append((cnd, pol))
         return out
 
-    def harmless(cnd, pol, sets_, alg):
-        """an emptiness / size guard implied by the existence of the witnesses"""
+    def harmless(cnd, pol, sets_, alg, atleast=2):
+        """an emptiness / size guard implied by the existence of the witnesses (`atleast` of them in the first set: two distinct ones for rule 3, one for rule 4)"""
         n_ = npred(cnd, pol)
         if n_[0] == "nonempty":
             return any(same_set(alg, n_[1], s_) for s_ in sets_)
         if cnd[0] == "cmp" and cnd[2][0] == "ext" and cnd[2][1] == "len" and is_const(cnd[3]) and pol is True:
-            return any(same_set(alg, cnd[2][2][0], s_) for s_ in sets_[:1]) and (cnd[1], cnd[3][1]) in ((">=", 2), (">", 1), (">=", 1), (">", 0), ("!=", 0))
+            implied = ((">=", 2), (">", 1), (">=", 1), (">", 0), ("!=", 0)) if atleast >= 2 else ((">=", 1), (">", 0), ("!=", 0))
+            return any(same_set(alg, cnd[2][2][0], s_) for s_ in sets_[:1]) and (cnd[1], cnd[3][1]) in implied
         if n_[0] in (">=0", ">0"):
             # the same guards in any spelling (2 <= len(X), not len(X) < 2): len(X) - k >= 0 with k <= 2, len(X) - k > 0 with k <= 1
             d_ = dict(n_[1])
@@ -487,7 +507,7 @@ def quantified_rules(rep, prog):
             if len(d_) == 1:
                 (mono, coef), = d_.items()
                 if coef == 1 and len(mono) == 1 and mono[0][0] == "ext" and mono[0][1] == "len" and any(same_set(alg, mono[0][2][0], s_) for s_ in sets_[:1]):
-                    return (n_[0] == ">=0" and -k_ in (1, 2)) or (n_[0] == ">0" and -k_ in (0, 1))
+                    return (n_[0] == ">=0" and -k_ in ((1, 2) if atleast >= 2 else (1,))) or (n_[0] == ">0" and -k_ in ((0, 1) if atleast >= 2 else (0,)))
         return False
     # ------------------------------------------------------------------ rule_3
     f = need(prog, U + "rule_3")
@@ -592,7 +612,7 @@ def quantified_rules(rep, prog):
                 ni = not_in(cnd, pol)
                 if ni is not None and ni in ((h, c("adj", J_)), (J_, c("adj", h))):
                     test_ok = True
-                elif not (harmless(cnd, pol, [KS], alg) or npred(cnd, pol) == ("nonempty", it)):
+                elif not (harmless(cnd, pol, [KS], alg, atleast=1) or npred(cnd, pol) == ("nonempty", it)):
                     rest.append((cnd, pol))
             if rest:
                 undecided = "further condition %s on the path to `return True`" % pred_fmt(npred(*rest[0]))[:80]
